@@ -884,6 +884,9 @@ func namesOrderRule(c *core.Ctx) {
 				}
 			}
 		}
+		if listing == nil && p.Exit == ir.ExitPanic && len(p.Events(ir.KCall)) == 0 && len(nonLocalStores(p)) == 0 {
+			continue // a refusal before anything was computed (a container type that is not a struct): nothing is returned
+		}
 		if listing == nil {
 			ok = false
 			c.Fail("names-order", "hseq.New", lastPos(p), "a path does not compute the full listing")
